@@ -348,6 +348,39 @@ theorem activeIn_reset (w : World) (sym : Nat) (h : ActiveIn w)
     exact absurd ha (hnone id hin)
   · rw [C03.getD_upd_other _ _ _ _ hs]; exact h2 ha
 
+/-! the three gateways through which the strategy layer of the engine changes orders and registries -/
+
+theorem fail_w (e : Engine M) (k : Err) : (fail e k).w = e.w := by unfold fail; split <;> rfl
+
+/-- `createOrder` (every order the broker, the exit handling or a liquidation submits) keeps the invariant -/
+theorem activeIn_createOrder (e : Engine M) (sym : Nat) (a : Jesse.Gen.ApiCall) (via : Option Via)
+    (h : ActiveIn e.w) (hs : sym < e.w.active.length) : ActiveIn (createOrder e sym a via).w := by
+  unfold createOrder
+  split
+  · exact h
+  · cases hsub : Acc.submit e.w sym a.side a.type a.qty a.price (decide a.reduceOnly) with
+    | error kw =>
+      obtain ⟨k, w'⟩ := kw
+      simp only
+      rw [fail_w]
+      exact activeIn_submit_rejected h hsub
+    | ok w' =>
+      simp only
+      exact activeIn_submit h hs hsub
+
+/-- `cancelOrder` keeps the invariant -/
+theorem activeIn_cancelOrder (e : Engine M) (id : Nat) (h : ActiveIn e.w) : ActiveIn (cancelOrder e id).w := by
+  unfold cancelOrder
+  split
+  · exact activeIn_cancel e.w id h
+  · exact h
+
+/-- `resetStrategy` (the registry reset) keeps the invariant when nothing listed for the symbol is active any more -/
+theorem activeIn_resetStrategy (e : Engine M) (r : Nat) (h : ActiveIn e.w)
+    (hnone : ∀ id ∈ getD e.w.active (routeOf e r).sym, (e.w.orders.getD id default).status ≠ .active) :
+    ActiveIn (resetStrategy e r).w :=
+  activeIn_reset e.w (routeOf e r).sym h hnone
+
 /-- the account operations of a session -/
 inductive AOp where
   | submit (sym : Nat) (side : Side) (type : OrderType) (q p : Rat) (ro : Bool)
